@@ -50,7 +50,8 @@ mkpoly (ctor r) H; dt= / properties= pass-through keywords are dropped (time / p
 ring (the k of a vertex-defined hole is invisible, as RingM.geom_rings states); self.linear_rings(**kwargs) -> a
 function-valued field of the receiver (linear_rings itself is tied with C14); GeoCircle(c, r).bounding_coords(**kwargs)
 -> Section variable circle_bc c r kwargs (WktM's oracle); `self.X(...)`/`cls.X(...)`/`super().X(...)` are resolved through
-the real MRO of the imported class; warn_once("...") has no effect; exceptions -> Err kind.
+the real MRO of the imported class; GeoRing.angle_min / angle_max -> Z in degrees (only compared with the constants 0 and 360);
+warn_once("...") has no effect; exceptions -> Err kind.
 Loops: `acc = []` ... `for x in xs: <body>; acc.append(e)` -> loop_app (fun x => <body>; Ok e) xs acc (defined below,
 proved equal to mapR in GenEq); a comprehension whose element can raise -> mapR; `[c for a in A for c in f(a)]` with a
 raising f -> concat of mapR."""
@@ -739,6 +740,8 @@ class TrW(TrB):
             if f.attr == 'to_str' or f.attr in ('bounding_coords', 'linear_rings', 'from_wkt'):
                 v, t = self.expr(f.value)
                 if t == C and f.attr == 'to_str':
+                    if ('Coordinate', 'to_str') not in e.known:
+                        fail(n, 'Coordinate.to_str is not translated')
                     return self.known_call(n, e.known[('Coordinate', 'to_str')], None, recv_term=(v, t))
                 if (t, f.attr) in e.recv_methods:
                     return self.recv_method(n, t, v, f.attr)
@@ -919,7 +922,7 @@ class TrW(TrB):
                 self.vars[x] = t
             body = self.block(rest)
             for x, (v, _) in reversed(list(zip(names, vals))):
-                body = f'(let {nm(x)}__ := {v} in {body})' if False else f'(let {nm(x)} := {v} in {body})'
+                body = f'(let {nm(x)} := {v} in {body})'
             if any(any(isinstance(y, ast.Name) and y.id in names for y in ast.walk(x)) for x in s.value.elts):
                 fail(s, 'tuple assignment whose right side mentions a target')
             return self.wrap(pend, body)
